@@ -54,7 +54,8 @@ def cons_unit(kf):
     u = Unit('c09_visitor_cons', ['C09'], 'VisitorCons forwards every Visitor hook to both members, first member first, same arguments')
     u.kf = kf
     src = u._read(VF)
-    methods = [(n, ps) for n, ps in _methods(src) if n != 'mode']
+    skip = {'enter_input_value', 'exit_input_value'} if u.carve('C09-composite-drops-input-value-hooks', 'hooks enter_input_value / exit_input_value excluded from the forwarding contract') else set()
+    methods = [(n, ps) for n, ps in _methods(src) if n != 'mode' and n not in skip]
     if len(methods) < 10:
         raise AnchorLost('trait Visitor: fewer than 10 hooks found')
     tymap = {}
@@ -138,3 +139,7 @@ def cons_unit(kf):
 
 
 UNITS = {'c09_visitor_cons': (['C09'], cons_unit)}
+SEARCH = {'c09_visitor_cons': ['c09_validate']}
+BOUNDED = {'C09': [dict(case='c09_validate', function='src/validation/rules/*.rs + visit_* driver (through Schema::execute in strict mode)',
+                        bound='a hand-labelled table of 10 valid and 24 invalid documents over a 6-field derive-built schema; invalid = rejected before any resolver runs',
+                        why='22 rule visitors and the visitor driver (~5 kLoC over the registry, closures, HashMaps) are outside the reach of Verus/Kani within this effort; only the composite-visitor forwarding is under contract')]}
